@@ -14,7 +14,8 @@ EXTENDS C05_HolArith, TLC, Json, IOUtils, SequencesExt
 
 CONSTANTS LeafVals,     \* numerals at the leaves, e.g. {0,1,2,3,7}
           RhsVals,      \* numerals on the right-hand side of the goals l REL r with a simple right-hand side
-          FullEq,       \* TRUE: all equations l = r with l, r of depth <= 2; FALSE: only those some evaluator model equates
+          FullEq,       \* TRUE: equations l = r between compound terms for every r that is a numeral, a sum or a difference (and wider
+                        \* right-hand sides / relation sets elsewhere); always: every pair l, r that SOME evaluator model equates
           Guarded       \* TRUE: steps check the type discipline InDomain (the reference)
 
 \* ---------------------------------------------------------------- universe
@@ -122,14 +123,16 @@ RefStep(s, g) ==
          [] OTHER -> Reject
 
 \* ---------------------------------------------------------------- goals
-CastRels == IF FullEq THEN Rels ELSE {"equals", "less"}
+CastRels == IF FullEq THEN {"equals", "less", "greater_eq"} ELSE {"equals", "less"}
 GoalsA == UNION { UNION { { Rel(rel, T, l, r) : rel \in Rels, r \in Rhs(T) } : l \in D2(T) } : T \in NumT }
           \cup UNION { UNION { { Rel(rel, T, l, r) : rel \in CastRels, r \in Rhs(T) } : l \in Casts(T) \cup Deep(T) } : T \in NumT }
-\* equations between two compound terms: all of them (FullEq), or those that SOME evaluator model equates at SOME type
-\* (these are the goals a type-blind step would accept: the interesting ones)
+\* equations between two compound terms: those that SOME evaluator model equates at SOME type (the goals a type-blind
+\* step would accept: the interesting ones) and, when FullEq, every right-hand side that is a numeral, a sum or a difference
 WithEv(T) == { <<e, <<NatEv(e), IntEv(e), RealEv(e)>>>> : e \in D2(T) }
 EqByModel(a, b) == \E i \in 1..3 : ~RIsOvf(a[i]) /\ a[i] = b[i]
-GoalsB == UNION { { Rel("equals", T, pq[1][1], pq[2][1]) : pq \in { x \in WithEv(T) \X WithEv(T) : FullEq \/ EqByModel(x[1][2], x[2][2]) } } : T \in NumT }
+SimpleHead(e) == e[1] \in {"zero", "one", "of_nat", "plus", "minus"}
+GoalsB == UNION { { Rel("equals", T, pq[1][1], pq[2][1]) :
+                    pq \in { x \in WithEv(T) \X WithEv(T) : (FullEq /\ SimpleHead(x[2][1])) \/ EqByModel(x[1][2], x[2][2]) } } : T \in NumT }
 GoalsN == { Not(g) : g \in { x \in GoalsA : x[3][2] \in { Num(ArgT(x), 0) } \cup (IF FullEq THEN { Num(ArgT(x), 2) } ELSE {}) /\ x[3][1] \in D2(ArgT(x)) } }
 Goals == GoalsA \cup GoalsB \cup GoalsN
 
@@ -138,7 +141,7 @@ VARIABLES goal, step, out
 vars == <<goal, step, out>>
 \* spec -> code: the goals are written as vectors when the harness asks for them
 Emit == IF "VECTOR_FILE" \in DOMAIN IOEnv
-        THEN LET gs == SetToSeq(Goals) IN ndJsonSerialize(IOEnv.VECTOR_FILE, [i \in 1..Len(gs) |-> [g |-> gs[i]]])
+        THEN ndJsonSerialize(IOEnv.VECTOR_FILE, SetToSeq({ [g |-> x] : x \in Goals }))
         ELSE TRUE
 Init == Emit /\ goal \in Goals /\ step = "-" /\ out = Reject
 Next == /\ step = "-"
